@@ -313,18 +313,16 @@ Proof.
   apply IH; [apply good_pf_update1; auto|apply pf_update1_noerr; auto; apply Hg].
 Qed.
 
-Definition op_ok (o : op) : Prop :=
-  match o with OInsert i => ik1 i <> None | _ => True end.
-
-Lemma good_step pareto base h o : good base h -> op_ok o ->
+Lemma good_step pareto base h o : good base h ->
   err (step sim pareto h o) = false -> good base (step sim pareto h o).
 Proof.
-  intros Hg Ho. unfold step. destruct (err h) eqn:Eh; [congruence|].
-  destruct o as [pop|i|idx|]; simpl in Ho.
+  intros Hg. unfold step. destruct (err h) eqn:Eh; [congruence|].
+  destruct o as [pop|i|idx|].
   - destruct pareto; intros He.
     + apply good_pf_update; auto.
     + apply good_update; auto.
-  - intros _. apply good_insert; auto.
+  - intros _. unfold insert_pub. destruct (ik1 i) as [z|] eqn:Ek; cbn [kisnan]; [|exact Hg].
+    apply good_insert; auto. congruence.
   - intros He. apply good_remove; auto. congruence.
   - intros _. apply good_clear; auto.
 Qed.
@@ -332,17 +330,16 @@ Qed.
 Lemma step_err_sticky pareto h o : err h = true -> err (step sim pareto h o) = true.
 Proof. intros H. unfold step. rewrite H. auto. Qed.
 
-Lemma good_run_from pareto base ops : forall h, good base h -> Forall op_ok ops ->
+Lemma good_run_from pareto base ops : forall h, good base h ->
   err (fold_left (step sim pareto) ops h) = false -> good base (fold_left (step sim pareto) ops h).
 Proof.
-  induction ops as [|o ops IH]; simpl; auto. intros h Hg Hok He.
-  inversion Hok; subst.
+  induction ops as [|o ops IH]; simpl; auto. intros h Hg He.
   destruct (err (step sim pareto h o)) eqn:E1.
   - rewrite (fold_err_sticky _ (step_err_sticky pareto)) in He; auto. discriminate.
   - apply IH; auto. apply good_step; auto.
 Qed.
 
-Theorem any_history_good pareto c base ops : Forall op_ok ops ->
+Theorem any_history_good pareto c base ops :
   err (run sim pareto c base ops) = false -> good base (run sim pareto c base ops).
 Proof. intros. apply good_run_from; auto. apply good_empty. Qed.
 End WithSim2.
@@ -432,7 +429,7 @@ Proof.
     - rewrite Li. auto. }
   destruct (items h) as [|e0 l0] eqn:Ei.
   - (* empty hall *)
-    rewrite Hcap. destruct (Nat.leb_spec c (length (@nil entry))); [simpl in *; lia|].
+    rewrite Hcap. destruct (Nat.ltb_spec 0 c) as [_|Hc0]; [|lia]. destruct (Nat.leb_spec c (length (@nil entry))); [simpl in *; lia|].
     rewrite He. rewrite <- Ei in *.
     assert (Hr : rest = []) by (apply Hfull; rewrite Ei; simpl; lia). subst rest.
     apply (Hins h Hg He Hcap []); rewrite ?Ei; simpl; try lia; auto.
@@ -812,9 +809,42 @@ Proof.
   - exists rest. auto.
 Qed.
 
+(* capacity 0 (after the fix of finding F12b): the hall stays empty, nothing raises *)
+Lemma cap0_update1 sim h i : cap h = Some 0%nat -> items h = [] -> update1 sim h i = h.
+Proof.
+  intros Hc Hi. unfold update1. destruct (err h); [reflexivity|]. unfold should_add. rewrite Hi, Hc.
+  destruct (kisnan (ik1 i)); reflexivity.
+Qed.
+Lemma cap0_update sim pop : forall h, cap h = Some 0%nat -> items h = [] -> update sim h pop = h.
+Proof.
+  unfold update. induction pop as [|i pop IH]; intros h Hc Hi; [reflexivity|]. cbn [fold_left]. rewrite (cap0_update1 sim h i Hc Hi). apply IH; assumption.
+Qed.
+Definition C10_capacity_zero_stmt : Prop :=
+  forall sim (base : nat) (ops : list op), only_updates ops ->
+  let h := run sim false (Some 0%nat) base ops in err h = false /\ keys h = [] /\ items h = [].
+Lemma C10_capacity_zero : C10_capacity_zero_stmt.
+Proof.
+  intros sim base ops Ho. unfold run.
+  assert (G : forall h, cap h = Some 0%nat -> items h = [] -> fold_left (step sim false) ops h = h).
+  { induction Ho as [|o ops Hoo _ IH]; intros h Hc Hi; [reflexivity|]. cbn [fold_left]. destruct o as [pop| | |]; try destruct Hoo.
+    assert (E : step sim false h (OUpdate pop) = h).
+    { unfold step. destruct (err h); [reflexivity|]. apply cap0_update; assumption. }
+    rewrite E. apply IH; assumption. }
+  rewrite G by reflexivity. cbn. repeat split; reflexivity.
+Qed.
+
+(* the public insert never admits a NaN key; where update / the Pareto update call insert, the NaN test is dead code *)
+Lemma insert_pub_of_should_add sim h i : should_add sim h i = true -> insert_pub h i = insert h i.
+Proof. unfold should_add, insert_pub. destruct (kisnan (ik1 i)); [discriminate|reflexivity]. Qed.
+Lemma insert_pub_of_pf sim h i : pf_not_dominated h i && not_similar sim h i = true -> insert_pub h i = insert h i.
+Proof.
+  unfold pf_not_dominated, insert_pub. destruct (kisnan (ik1 i)); [cbn; discriminate|reflexivity].
+Qed.
+Lemma insert_pub_nan h i : ik1 i = None -> insert_pub h i = h.
+Proof. intros E. unfold insert_pub. rewrite E. reflexivity. Qed.
+
 Definition C10_any_history_stmt : Prop :=
   forall sim pareto c (base : nat) (ops : list op),
-  Forall op_ok ops ->            (* manual insert is never handed a NaN key *)
   let h := run sim pareto c base ops in
   err h = false ->               (* no IndexError escaped *)
   keys h = map ek1 (items h) /\
@@ -826,8 +856,8 @@ Definition C10_any_history_stmt : Prop :=
 
 Lemma C10_any_history : C10_any_history_stmt.
 Proof.
-  intros sim pareto c base ops Hok h He.
-  destruct (any_history_good sim pareto c base ops Hok He) as [? ? ? ? ? Hf ? ?].
+  intros sim pareto c base ops h He.
+  destruct (any_history_good sim pareto c base ops He) as [? ? ? ? ? Hf ? ?].
   repeat split; auto. rewrite Forall_forall in *. intros e Hin. specialize (Hf e Hin). lia.
 Qed.
 
